@@ -348,6 +348,33 @@ def r11_every_solid_fresh_linkage(idx, r):
     pairing_rule(idx, r, [mod], 25)
 
 
+def r12_reference_reset_and_solid_test(idx, r):
+    """(a) ExpansionData.updateComponentTempsBy1DTempField starts every temperature field from a clean table of reference temperatures and
+    hands EVERY component of every block to updateComponentTemp: the reference of a component is the temperature it had before THIS field.
+    Skipping components whose temperature happens to be unchanged leaves the reference of an earlier field in the table, and the same growth
+    is applied again.  (b) `Component.containsSolidMaterial` - what axial linking asks - and `iterSolidComponents` - what is expanded - use
+    the same test: everything but a Fluid is solid."""
+    f = idx.method(ED, "updateComponentTempsBy1DTempField")
+    calls = [c for c in iter_calls(f.node) if dotted(c.func) == "self.updateComponentTemp"]
+    if len(calls) != 1:
+        raise AnchorMissing("updateComponentTempsBy1DTempField: self.updateComponentTemp(c, T)")
+    conds = [norm(t) for t, _p in path_conditions(f.node, calls[0]) if "temperatureInC" in norm(t) or "blockAveTemp" in norm(t)]
+    r.require(not conds, "tempField:every-component-updated", f, node=calls[0],
+              msg=f"a component is only updated under {conds}: one that is already at the block temperature keeps the reference temperature of an earlier field and grows again by the earlier step")
+    fl = Flow(f.node, lambda nd: ["reset"] if isinstance(nd, ast.Assign) and norm(nd) in ("self.componentReferenceTemperature = {}", "self.componentReferenceTemperature = dict()") or (isinstance(nd, ast.Call) and norm(nd.func) == "self.componentReferenceTemperature.clear") else []).run()
+    st = fl.state_before(calls[0]) or {}
+    r.require(st.get("reset", (0, 0))[0] >= 1, "tempField:reference-table-reset-first", f, node=calls[0],
+              msg="the table of reference temperatures is not emptied before the components of this field are recorded: entries of an earlier field survive for components that are skipped")
+    g = idx.method("armi.reactor.components.component.Component", "containsSolidMaterial")
+    iso = [c for c in ast.walk(g.node) if isinstance(c, ast.Call) and dotted(c.func) == "isinstance"]
+    if len(iso) != 1:
+        raise AnchorMissing("containsSolidMaterial: isinstance test")
+    second = iso[0].args[1]
+    names = [norm(x) for x in (second.elts if isinstance(second, ast.Tuple) else [second])]
+    r.require(names in (["material.Fluid"], ["Fluid"]), "containsSolidMaterial:same-test-as-iterSolidComponents", g, node=iso[0],
+              msg=f"a component of {names} is not 'solid' for axial linking while iterSolidComponents still expands everything but fluids: it grows but is not linked, and components stop being contiguous")
+
+
 def run(idx, chk):
     chk.explanation = (
         "C12: axiallyExpandAssembly typed with a role generator for the growth fraction (height x growth, densities x growth^-1); block bottoms on the "
@@ -375,3 +402,5 @@ def run(idx, chk):
                  necessary="the mass of every solid component is conserved through expansion and re-meshing")
     chk.run_rule("R12.11", "only fluids are left out of the expansion; setAssembly precedes every expansion step on every path; arguments stand at their parameter", lambda r: r11_every_solid_fresh_linkage(idx, r), floor=7,
                  necessary="each block grows by its target component's factor of THIS call, computed from the reference temperature the caller chose")
+    chk.run_rule("R12.12", "every component of a temperature field is updated from a fresh reference table; axial linking and expansion agree on what is solid", lambda r: r12_reference_reset_and_solid_test(idx, r), floor=3,
+                 necessary="each block grows by its target's factor of this step only; solid components of neighbouring blocks stay contiguous")
